@@ -13,7 +13,7 @@ use std::sync::Arc;
 
 pub static PROP: Prop = Prop {
     id: "C15",
-    rule: "cases: programs from the C07 generator (observable handlers of all kinds: context function by call and by bare name, some shadowing global functions; global function; prefix, infix, postfix and SETTER operators) evaluated on a generated context; for EVERY k from 0 to the number of handler invocations of the fault-free run, and for both modes (handler returns Err / handler panics), the k-th invocation is made to fail. Oracle: Err at k => result Err, exactly k+1 invocations logged, context equal to the model context at that point; panic at k => catch_unwind in the caller catches exactly the injected payload (an ordinary unwind), k+1 invocations logged. After each run a follow-up battery must behave as if the evaluation had just stopped there: the context is readable and equal to the model, a second evaluation on the same context works, evaluations with fresh contexts on the same thread and on a new thread give the reference results, register_function + call works, no registry lock is reported held and the context mutex is neither held nor poisoned. Non-trivial: k is neither the first nor the last invocation, or the failing handler is reached through a bare name or is an operator, or the program assigned a variable before the fault; distinct by (failing handler id, mode, position class, program skeleton).",
+    rule: "cases: programs from the C07 generator (observable handlers of all kinds: context function by call and by bare name, some shadowing global functions; global function; prefix, infix, postfix and SETTER operators) evaluated on a generated context (one program in eight wrapped in 33-60 nested list literals); for EVERY k from 0 to the number of handler invocations of the fault-free run, and for both modes (handler returns Err / handler panics), the k-th invocation is made to fail. Oracle: Err at k => result Err, exactly k+1 invocations logged, context equal to the model context at that point; panic at k => catch_unwind in the caller catches exactly the injected payload (an ordinary unwind), k+1 invocations logged. After each run a follow-up battery must behave as if the evaluation had just stopped there: the context is readable and equal to the model, a second evaluation on the same context works, evaluations with fresh contexts on the same thread and on a new thread give the reference results, register_function + call works, no registry lock is reported held and the context mutex is neither held nor poisoned. Non-trivial: k is neither the first nor the last invocation, or the failing handler is reached through a bare name or is an operator, or the program assigned a variable before the fault; distinct by (failing handler id, mode, position class, program skeleton).",
     assumptions: &[
         "panics are injected in-process under catch_unwind with a silent panic hook; an abort would kill the shard and is reported through the breadcrumb",
         "cases whose fault-free reference outcome is unspecified are excluded and counted",
@@ -186,10 +186,34 @@ fn check_program(tree: &R, sc: &SemCtx, st: &mut Stats) -> CaseResult {
     Ok(())
 }
 
+/// the (last statement of the) program inside `n` nested list literals
+fn nest(tree: R, n: usize) -> R {
+    let wrap = |mut e: R| {
+        for _ in 0..n {
+            e = R::List(vec![e]);
+        }
+        e
+    };
+    match tree {
+        R::Stmts(mut v) if !v.is_empty() => {
+            let last = v.pop().unwrap();
+            v.push(wrap(last));
+            R::Stmts(v)
+        }
+        other => wrap(other),
+    }
+}
+
 fn case(src: &mut Src, st: &mut Stats, _env: &Env) -> CaseResult {
     let c = obs_cfg();
+    // one program in eight is evaluated 33-60 levels deep (containment does not depend on depth)
+    let deep = if src.pick(8) == 7 { 33 + src.pick(28) } else { 0 };
     let sc = gen_obs_context(src, &c);
-    let tree = gen_obs_program(src, &c, &sc);
+    let mut tree = gen_obs_program(src, &c, &sc);
+    if deep > 0 {
+        st.hist("deeply-nested-program");
+        tree = nest(tree, deep);
+    }
     check_program(&tree, &sc, st)
 }
 
